@@ -516,7 +516,7 @@ func (c *gcorr) schemas() {
 		one(ti.t)
 	}
 	r := c.cx.R.Fork()
-	for i := 0; i < c.cx.Scale(700, 10000); i++ {
+	for i := 0; i < c.cx.Scale(1200, 10000); i++ {
 		one(randStructType(r, r.Intn(3)))
 	}
 }
@@ -526,7 +526,7 @@ func (c *gcorr) schemas() {
 func (c *gcorr) encDec() {
 	cx := c.cx
 	stats := map[string]int{}
-	n := cx.Scale(1500, 40000)
+	n := cx.Scale(3000, 40000)
 	for i := 0; i < n; i++ {
 		r := cx.R.Fork()
 		ti := c.pickType(r)
@@ -861,7 +861,7 @@ func bigIntIn(wire string) bool {
 
 func (c *gcorr) bodies() {
 	cx := c.cx
-	n := cx.Scale(2500, 60000)
+	n := cx.Scale(5000, 60000)
 	for i := 0; i < n; i++ {
 		r := cx.R.Fork()
 		ti := c.pickType(r)
@@ -978,7 +978,7 @@ func ptrKinds(rt reflect.Type, below bool, out map[string]bool) {
 
 func (c *gcorr) attrs() {
 	cx := c.cx
-	n := cx.Scale(2500, 60000)
+	n := cx.Scale(5000, 60000)
 	for i := 0; i < n; i++ {
 		r := cx.R.Fork()
 		var rt reflect.Type
